@@ -203,6 +203,8 @@ func runCheck(prop, tier string, overlay map[string][]byte, mutantMode bool) (*C
 			res.Notes[n] = true
 		}
 	}
+	// call-site rules of this property (syntactic sweep over the SSA of the loaded repo packages)
+	allObls = append(allObls, e.callSiteObligations(prop)...)
 	// sweeps
 	for _, sw := range cfg.Sweeps {
 		obls, err := e.runSweep(sw, prop, res)
